@@ -99,6 +99,13 @@ def gen_plan(seed, tier):
         st["acts"] = [rv.pick([["set_vlan_vid", 7], ["set_vlan_vid", 100],
                                ["set_vlan_pcp", 3], ["strip_vlan"]])] \
             + st["acts"]
+      rb = Rng(mix(seed, "fbad", len(steps)))
+      if rb.chance(0.07):
+        # an action of a type the switch does not implement (a vendor
+        # action, or a type number nobody has): the request is refused as a
+        # whole and the table stays what it was, whatever the command
+        st["fbad"] = rb.pick([0xffff, 12, 100, 0x7fff])
+        st["fbadpos"] = rb.pick([0, 1])
       if exact:
         # for exact-match entries the specification gives the priority
         # field no meaning (identity and overlap become ambiguous)
